@@ -3809,6 +3809,8 @@ C10_FUNCS = ("count", "to_upper", "to_lower", "parse_int", "parse_string", "pars
 def c10_literal_lets(rules):
     """does the file bind a variable to a LITERAL (whose values have paths of their own, not document paths)?"""
     import re as _re
+    if _re.search(r"^\s*rule\s+\w+\s*\(", rules, _re.M):
+        return True          # parameterised rules can be called with literal arguments (paths of their own)
     for m in _re.finditer(r"\blet\s+\w+\s*:?=\s*(\S+)", rules):
         t = m.group(1)
         if not _re.match(r"[A-Za-z_%]", t) or _re.match(r"(?i)(true|false|null)\b", t) or _re.match(r"r[\[(]", t):
@@ -3882,9 +3884,20 @@ def run_C10(ctx):
         doc = g.cfn_doc() if cfn else g.doc(depth=rng.choice([2, 3, 4]))
         if not isinstance(doc, dict) or not doc:
             continue
+        if i % 2 == 0:
+            doc["zl"] = [g.ch([1, 2, 10, "a", "b", "x y"]) for _ in range(g.ch([2, 3, 4]))]
         rules = g.rules_file(doc, depth=2, cfn=cfn)
         if any(_re.search(r"\b%s\s*\(" % f, rules) for f in C10_FUNCS):
             rules = "\n".join(l for l in rules.split("\n") if not any(_re.search(r"\b%s\s*\(" % f, l) for f in C10_FUNCS)) + "\n"
+        # directed clauses: a file-level variable over the first key, and a list-valued key tested with `in`
+        k0 = next((k for k in doc if _re.fullmatch(r"[A-Za-z][A-Za-z0-9]*", k)), None)
+        if k0 is not None and not c10_literal_lets(rules):
+            rules = "let zfile = %s\n" % k0 + rules + "rule zvar {\n%zfile == \"never-equal-zz\"\n%zfile.zzmissing exists\n}\n"
+            for lk, lv in doc.items():
+                if isinstance(lv, list) and len(lv) >= 2 and all(isinstance(e, (str, int)) and not isinstance(e, bool) for e in lv) \
+                        and _re.fullmatch(r"[A-Za-z][A-Za-z0-9]*", lk):
+                    rules += "rule zin {\n%s in [%s, \"zz-never\"]\n}\n" % (lk, g.lit_of(lv[0]))
+                    break
         for style in ("json", "flow", "block"):
             try:
                 text, pos = _emit.self_check(random.Random(ctx.seed * 17 + i * 3 + len(style)), doc, style)
@@ -3895,9 +3908,43 @@ def run_C10(ctx):
     reqs = [{"id": i, "op": "cli", "argv": ["validate", "-r", "{DIR}/r.guard", "-d", "{DIR}/d.yaml", "--structured", "-o", "json", "-S", "none"],
              "files": {"r.guard": s["rules"], "d.yaml": s["text"]}} for i, s in enumerate(scen)]
     outs = ctx.hp.map(reqs, timeout=60)
-    for s, r in zip(scen, outs):
+    # two data files in one run: every report must point into ITS document
+    pairs2, reqs2 = [], []
+    for i in range(0, len(scen) - 1, 2):
+        a = scen[i]
+        k0 = next((k for k in a["doc"] if _re.fullmatch(r"[A-Za-z][A-Za-z0-9]*", k)), None)
+        if k0 is None:
+            continue
+        g2 = gen.G(ctx.seed * 71 + i)
+        doc2 = dict(a["doc"])
+        doc2[k0] = g2.value(2)
+        try:
+            text2, pos2 = _emit.self_check(random.Random(ctx.seed * 19 + i), doc2, a["style"])
+        except Exception:
+            continue
+        b = {"rules": a["rules"], "doc": doc2, "style": a["style"], "text": text2, "pos": pos2, "lit": a["lit"]}
+        order = [a, b] if i % 4 == 0 else [b, a]
+        reqs2.append({"id": len(reqs2), "op": "cli", "argv": ["validate", "-r", "{DIR}/r.guard", "-d", "{DIR}/d0.yaml", "-d", "{DIR}/d1.yaml",
+                                                               "--structured", "-o", "json", "-S", "none"],
+                      "files": {"r.guard": a["rules"], "d0.yaml": order[0]["text"], "d1.yaml": order[1]["text"]}})
+        pairs2.append(order)
+    extra = []
+    for order, r in zip(pairs2, ctx.hp.map(reqs2, timeout=60)):
+        code = (r.get("result") or {}).get("code")
+        if "died" in r or code not in (0, 19):
+            continue
+        try:
+            reps = json.loads(r["stdout"])
+        except Exception:
+            continue
+        for rep in reps:
+            nm = os.path.basename(rep.get("name", ""))
+            if nm in ("d0.yaml", "d1.yaml"):
+                sc = dict(order[int(nm[1])], two_files=True)
+                extra.append((sc, {"result": {"code": code}, "stdout": json.dumps([rep])}))
+    for s, r in list(zip(scen, outs)) + extra:
         res.evaluations += 1
-        res.stats["style:" + s["style"]] += 1
+        res.stats["style:" + s["style"] + ("/two-data-files" if s.get("two_files") else "")] += 1
         info = {"rules": s["rules"], "data": s["text"], "doc": s["doc"], "style": s["style"]}
         if "died" in r or "panic" in (r.get("result") or {}):
             res.judge_failures.append(dict(info, what="validate did not return (%s)" % (r.get("died") or r["result"]["panic"][:100]), **{"class": "c10-crash"}))
